@@ -806,7 +806,8 @@ pub fn record_obj(_path: &str, _count: usize, _seed: u64, _force: &str) -> u64 {
 // C19 I->S at the real scan cap: pair selection on needles of length 0..600
 // under a table of rankers, and the whole with_indices acceptance matrix.
 
-pub fn record_pair(path: &str, count: usize, seed: u64) -> u64 {
+pub fn record_pair(path: &str, count: usize, seed: u64) -> (u64, Vec<String>) {
+    let mut panics: Vec<String> = Vec::new();
     use memchr::arch::all::packedpair::Pair;
     let mut f = std::io::BufWriter::new(std::fs::File::create(path).unwrap());
     let mut r = Rng::new(seed ^ 0x9A12);
@@ -840,6 +841,7 @@ pub fn record_pair(path: &str, count: usize, seed: u64) -> u64 {
         let sel = match guard(|| Pair::with_ranker(&n, &table)) {
             Ok(s) => s,
             Err(m) => {
+                panics.push(format!("Pair::with_ranker panicked on a needle of {} bytes: {m}", n.len()));
                 writeln!(f, "{}", json!({"k": "ranker", "n": n, "rank": ranks, "none": false, "i1": -1, "i2": -1, "fi1": -1, "fi2": -1, "panic": m})).unwrap();
                 nrec += 1;
                 continue;
@@ -851,16 +853,44 @@ pub fn record_pair(path: &str, count: usize, seed: u64) -> u64 {
         };
         let (mut fi1, mut fi2) = (-1i64, -1i64);
         if let Some(p) = sel {
-            if let Some(fd) = memchr::arch::all::packedpair::Finder::with_pair(&n, p) {
-                fi1 = fd.pair().index1() as i64;
-                fi2 = fd.pair().index2() as i64;
+            // building finders from a valid pair must not panic, whatever the offsets (up to 254)
+            match guard(|| memchr::arch::all::packedpair::Finder::with_pair(&n, p).map(|fd| (fd.pair().index1() as i64, fd.pair().index2() as i64))) {
+                Ok(Some((a, b))) => {
+                    fi1 = a;
+                    fi2 = b;
+                }
+                Ok(None) => {}
+                Err(m) => {
+                    panics.push(format!("all::packedpair::Finder::with_pair panicked for offsets ({i1},{i2}) on a needle of {} bytes: {m}", n.len()));
+                    fi1 = -2;
+                }
             }
             #[cfg(verif_x86)]
-            if let Some(fd) = memchr::arch::x86_64::sse2::packedpair::Finder::with_pair(&n, p) {
-                if fd.pair().index1() as i64 != fi1 || fd.pair().index2() as i64 != fi2 {
-                    fi1 = fd.pair().index1() as i64;
-                    fi2 = fd.pair().index2() as i64;
+            for which in ["sse2", "avx2"] {
+                let r = guard(|| {
+                    if which == "sse2" {
+                        memchr::arch::x86_64::sse2::packedpair::Finder::with_pair(&n, p).map(|fd| (fd.pair().index1() as i64, fd.pair().index2() as i64, fd.min_haystack_len()))
+                    } else {
+                        memchr::arch::x86_64::avx2::packedpair::Finder::with_pair(&n, p).map(|fd| (fd.pair().index1() as i64, fd.pair().index2() as i64, fd.min_haystack_len()))
+                    }
+                });
+                match r {
+                    Ok(Some((a, b, _))) => {
+                        if a != fi1 || b != fi2 {
+                            fi1 = a;
+                            fi2 = b;
+                        }
+                    }
+                    Ok(None) => {}
+                    Err(m) => {
+                        panics.push(format!("{which}::packedpair::Finder::with_pair panicked for offsets ({i1},{i2}) on a needle of {} bytes: {m}", n.len()));
+                        fi1 = -2;
+                    }
                 }
+            }
+            // and the meta searcher built through the heuristic
+            if let Err(m) = guard(|| memmem::Finder::new(&n).find(b"")) {
+                panics.push(format!("memmem::Finder::new panicked on a needle of {} bytes: {m}", n.len()));
             }
         }
         writeln!(f, "{}", json!({"k": "ranker", "n": n, "rank": ranks, "none": none, "i1": i1, "i2": i2, "fi1": fi1, "fi2": fi2})).unwrap();
@@ -875,5 +905,5 @@ pub fn record_pair(path: &str, count: usize, seed: u64) -> u64 {
         }
     }
     f.flush().unwrap();
-    nrec
+    (nrec, panics)
 }
